@@ -488,8 +488,8 @@ def kinds_of(out):
 
 
 def crossing_hybrid_core(flat, out):
-    """ class test of the recorded finding `hybrid_member_repeated`: circular record, and every candidate with a
-        repeated member is a chemical hybrid """
+    """ class test of the repaired finding `hybrid_member_repeated` (used only to label a violation): circular
+        record, and every candidate with a repeated member is a chemical hybrid """
     circular = (flat[1] == 1 and flat[3] == 1) or (flat[1] == 2 and flat[2] == 1)
     if not circular or not out or out[0] != 0:
         return False
@@ -523,8 +523,13 @@ def cyclic_order(config, out):
     return whole and crossing
 
 
-# regression corpus, run first: witness of the recorded finding F40 (hybrid_member_repeated) and the chain of
-# shared defining genes that the single-pass _merge_sets split (F10, fixed)
+# regression corpus, run first: witness of the repaired finding F40 (hybrid_member_repeated), the chain of
+# shared defining genes that the single-pass _merge_sets split (F10, fixed), the witness of the repaired finding
+# FC05a (joint_core_wraps_assert: two hybrid groups with identical coordinates united, joint core connected across
+# the origin although no member core crosses it, protoclusters still unassigned) and a variant of it in which the
+# united candidate itself crosses the origin and a later candidate pushes it out of the bisect window (the
+# unassigned protocluster is then found only by the walk of _find_cross_origin_interleaved: INTERLEAVED, not
+# NEIGHBOURING)
 CORPUS = [
     {"n": 12, "circular": True, "genes": [(0, [(2, 4, 1)], []), (1, [(5, 10, -1)], [1, 2])],
      "protos": [(0, [(5, 12, 1), (0, 4, 1)], [(5, 12, 1), (0, 4, 1)], 2),
@@ -534,6 +539,16 @@ CORPUS = [
      "genes": [(0, [(100, 110, 1)], [2, 3]), (1, [(200, 210, 1)], [3, 5]), (2, [(300, 310, 1)], [1, 5])],
      "protos": [(0, [(0, 400, 1)], [(300, 310, 1)], 1), (1, [(50, 150, 1)], [(100, 110, 1)], 2),
                 (2, [(80, 230, 1)], [(100, 210, 1)], 3), (3, [(190, 320, 1)], [(200, 310, 1)], 5)]},
+    {"n": 72, "circular": True, "genes": [(0, [(51, 52, 1)], [1, 5]), (1, [(11, 12, 1)], [3, 4])],
+     "protos": [(0, [(0, 71, 1)], [(51, 52, 1)], 5), (1, [(0, 71, 1)], [(11, 16, 1)], 3),
+                (2, [(4, 12, 1)], [(7, 12, 1)], 4), (3, [(0, 68, 1)], [(50, 53, 1)], 0),
+                (4, [(30, 58, 1)], [(50, 53, 1)], 2), (5, [(0, 68, 1)], [(51, 56, 1)], 1)]},
+    {"n": 100, "circular": True,
+     "genes": [(0, [(90, 92, 1)], [0, 1]), (1, [(5, 7, 1)], [2, 3]), (2, [(40, 42, 1)], [5, 6])],
+     "protos": [(0, [(80, 100, 1), (0, 20, 1)], [(88, 95, 1)], 0), (1, [(80, 100, 1), (0, 20, 1)], [(89, 94, 1)], 1),
+                (2, [(80, 100, 1), (0, 20, 1)], [(3, 10, 1)], 2), (3, [(80, 100, 1), (0, 20, 1)], [(4, 9, 1)], 3),
+                (4, [(75, 100, 1)], [(95, 99, 1)], 4), (5, [(30, 50, 1)], [(38, 44, 1)], 5),
+                (6, [(30, 50, 1)], [(39, 45, 1)], 6)]},
 ]
 
 
@@ -611,40 +626,50 @@ def run(chk):
     model_outs = common.correspondence(chk, cases, impl_outs, spec_fn_offset=None, describe=describe)
     # the decidable specification on every implementation output
     verdicts = common.run_driver([s for _, s in specs])
+    # no class of C05 is recorded as `known` any more (hybrid_member_repeated and joint_core_wraps_assert are repaired
+    # in the code): nothing is suppressed below unless an entry with status `known` is added again
     known = {f["class"]: f for f in common.load_known_findings("C05") if f.get("status") == "known"}
     raised = 0
     clause_names = ["every protocluster covered", "members are protoclusters of the record", "no repeated member",
                     "group sizes fit the kind", "location = connect_locations(members)", "unique coordinates+membership"]
-    # class test of the recorded finding `joint_core_wraps_assert`, computed by the model (fn 11 / 12) for the
-    # cases on which the implementation raised
-    raised_idx = [idx for (idx, _c), verdict in zip(specs, verdicts) if verdict == [2]]
+    # class test of the repaired finding `joint_core_wraps_assert`, computed by the model (fn 11 / 12) for the
+    # cases on which the implementation raised (labels a violation if the defect returns)
+    # ... and for every circular case, to show that the class is exercised (it no longer raises)
+    raised_idx = [idx for (idx, _c), verdict in zip(specs, verdicts)
+                  if verdict == [2] or (cases[idx][1] == 1 and cases[idx][3] == 1) or (cases[idx][1] == 2 and cases[idx][2] == 1)]
     class_flags = dict(zip(raised_idx, common.run_driver([[PROP, cases[i][1] + 10] + cases[i][2:] for i in raised_idx])))
+    chk.extra["cases_in_class_joint_core_wraps_assert"] = sum(1 for flag in class_flags.values() if flag == [1])
     for (idx, _spec_case), verdict in zip(specs, verdicts):
         if verdict and verdict[0] == 1 and len(verdict) == 7:
             continue
         if verdict == [2]:
             raised += 1
-            # recorded finding: AssertionError (`assert core_group`) when two hybrid groups with the same coordinates
-            # were united and the joint core is connected the short way across the origin.  Suppressed only if the
-            # class is recorded, the input is in the class, and implementation == model (both AssertionError).
-            if "joint_core_wraps_assert" in known and class_flags.get(idx) == [1] \
+            # repaired finding: AssertionError (`assert core_group`) when two hybrid groups with the same coordinates
+            # were united and the joint core is connected the short way across the origin.  Would be suppressed only if
+            # the class were recorded as known again, the input is in the class, and implementation == model.
+            in_class = class_flags.get(idx) == [1]
+            if "joint_core_wraps_assert" in known and in_class \
                     and impl_outs[idx] == [1, common.ERR["AssertionError"]] and model_outs[idx] == impl_outs[idx]:
                 chk.known(known["joint_core_wraps_assert"]["what_fails"])
                 chk.count("known_joint_core_wraps_assert")
                 continue
-            chk.violation("counterexample", "candidate cluster formation raises on a valid set of protoclusters",
+            chk.violation("counterexample", "candidate cluster formation raises on a valid set of protoclusters"
+                          + (" (class joint_core_wraps_assert, repaired in the code: the defect is back)" if in_class else ""),
                           {"theorem_or_correspondence": "C05 spec_ok (formation must cover every protocluster)",
                            "flat": cases[idx], "implementation": impl_outs[idx], "model": model_outs[idx],
                            "input": describe(cases[idx])})
             continue
         failed = [name for name, ok in zip(clause_names, verdict[1:]) if not ok] if len(verdict) == 7 else ["undecodable"]
         chk.count("spec_failed: " + "; ".join(failed))
-        # recorded finding: a hybrid whose joint core crosses the origin lists a contained protocluster twice.
-        # Suppressed only if exactly that clause fails, the class is recorded and implementation == model.
+        # repaired finding: a hybrid whose joint core crosses the origin listed a contained protocluster twice.
+        # Would be suppressed only if exactly that clause fails, the class is recorded as known again and
+        # implementation == model.
         if failed == ["no repeated member"] and "hybrid_member_repeated" in known \
                 and model_outs[idx] == impl_outs[idx] and crossing_hybrid_core(cases[idx], impl_outs[idx]):
             chk.known(known["hybrid_member_repeated"]["what_fails"])
             continue
+        if failed == ["no repeated member"] and crossing_hybrid_core(cases[idx], impl_outs[idx]):
+            failed = ["no repeated member (class hybrid_member_repeated, repaired in the code: the defect is back)"]
         chk.violation("counterexample", "implementation output violates the C05 specification: " + "; ".join(failed),
                       {"theorem_or_correspondence": "C05 spec_ok", "flat": cases[idx], "implementation": impl_outs[idx],
                        "model": model_outs[idx], "input": describe(cases[idx]), "spec_verdict": verdict,
